@@ -15,6 +15,17 @@ KNOWN_VARIANTS = {
 }
 
 
+# label -> {predicate callee key: boolean value of the predicate meaning "is that variant"}
+PREDICATES = {
+    "Pending": {("Poll", "is_pending"): True, ("Poll", "is_ready"): False},
+    "Ready": {("Poll", "is_pending"): False, ("Poll", "is_ready"): True},
+    "Some": {("Option", "is_some"): True, ("Option", "is_none"): False},
+    "None": {("Option", "is_some"): False, ("Option", "is_none"): True},
+    "Ok": {("Result", "is_ok"): True, ("Result", "is_err"): False},
+    "Err": {("Result", "is_ok"): False, ("Result", "is_err"): True},
+}
+
+
 class Site:
     __slots__ = ("info", "block", "callee", "t")
 
@@ -256,6 +267,19 @@ class BodyInfo:
                     edges.append(ed)
                 elif "otherwise" in e["edges"] and last in e.get("otherwise_names", []):
                     edges.append((e["block"], e["edges"]["otherwise"]))
+        # predicate calls on the result: r.is_pending(), r.is_some(), ...
+        if last in PREDICATES:
+            for e in self.switches:
+                s = e["subject"]
+                if e["kind"] == "bool" and s[0] == "call" and s[2]:
+                    pv = PREDICATES[last].get(s[1])
+                    if pv is None:
+                        continue
+                    path = self._path_from_site(s[2][0], site.block)
+                    if path is not None and tuple(path) == want_path:
+                        ed = self.edge(e, pv)
+                        if ed is not None:
+                            edges.append(ed)
         return edges
 
     def phi_tests_fed_by(self, site):
